@@ -132,6 +132,7 @@ def random_case(rng, tier):
     return {'programs': progs, 'persister': persister, 'loader': rng.choice(['default', 'default', 'custom']),
             'via': rng.choice(['loopcomm', 'loopcomm', 'direct']), 'ops': ops, 'load_context': rng.random() < 0.5,
             'sender': rng.choice(['body', 'async', 'thread']),
+            'eager': rng.random() < 0.4,
             'no_reply': rng.random() < 0.2,  # controllers are told not to wait for an answer: the task is carried out all the same
             'fault': rng.choice([None, None, None, None, ['hook:on_finished', 0], ['hook:on_terminated', 0], ['hook:on_finished:post', 0],
                                  ['hook:on_killed', 0]]),
@@ -187,6 +188,7 @@ class Harness:
             self.ticks += self.loop.tick
             # the old worker is gone: nothing of it runs any more
         self.loop = seams.new_loop(max_ticks=20000) if first else self._fresh_loop()
+        self.loop.eager_loop_thread = bool(self.case.get('eager'))  # who wins the race after call_soon_threadsafe (SimLoop)
         if first:
             fault = self.case.get('fault')
             if fault:
@@ -460,6 +462,12 @@ def run(case):
                     if known is None:
                         result.counters['probe:continue_missing'] += 1
                         nontrivial = True
+                        if outcome[0] == 'exception' and outcome[1] == 'TaskRejected' and not silent:
+                            # (only an unknown task type and a missing persister make a task one "that cannot be honoured":
+                            # a rejected task is offered to the next launcher, a failed one is answered with its error)
+                            result.violate('continue_missing', 'rejected', f'continue of a checkpoint that does not exist '
+                                                                           f'({pid!r}, {tag!r}) was rejected instead of failing: '
+                                                                           f'{outcome!r}')
                         if outcome[0] != 'exception' and not silent:
                             result.violate('continue_missing', 'reply', f'continue of a checkpoint that does not exist '
                                                                         f'({pid!r}, {tag!r}) was answered with {outcome!r}')
@@ -577,3 +585,6 @@ def _check_reply(result, what, nowait, outcome, proc, model, reply_state, silent
         result.counters['probe:reply_error'] += 1
         if outcome[0] != 'exception':
             result.violate('wait_reply', f'{what}:{state}', f'{what} answered {outcome!r} although the process ended {state}')
+        elif outcome[1] == 'TaskRejected':
+            result.violate('wait_reply', f'{what}:{state}:rejected', f'{what} of a process that ended {state} was answered with a '
+                                                                     f'rejection ({outcome!r}) instead of its error')
